@@ -31,6 +31,7 @@ var (
 	fReplays = flag.String("sim.replaydir", "/verif/replays", "where replay files go")
 	fDump    = flag.Bool("sim.dump", false, "print the trace of every case")
 	fShrink  = flag.Int("sim.shrink", 250, "max runs spent minimising one violation")
+	fHashOut = flag.String("sim.hashout", "", "write \"index tracehash\" lines here (determinism self-test)")
 	fMaxViol = flag.Int("sim.maxviol", 4, "max violations minimised per worker per signature class")
 )
 
@@ -258,6 +259,7 @@ func Main(t *testing.T, w World) {
 	sigs := map[uint64]bool{}
 	began := time.Now()
 	perClause := map[string]int{}
+	var hashLines []string
 	defer func() {
 		rep.WallS = time.Since(began).Seconds()
 		for s := range sigs {
@@ -267,6 +269,9 @@ func Main(t *testing.T, w World) {
 		if *fOut != "" {
 			b, _ := json.Marshal(rep)
 			os.WriteFile(*fOut, b, 0o644)
+		}
+		if *fHashOut != "" {
+			os.WriteFile(*fHashOut, []byte(strings.Join(hashLines, "\n")+"\n"), 0o644)
 		}
 	}()
 	for i := *fStart; i < *fStart+*fN; i++ {
@@ -282,6 +287,9 @@ func Main(t *testing.T, w World) {
 			if res2.TraceHash != res.TraceHash {
 				rep.DetMismatch = append(rep.DetMismatch, fmt.Sprintf("case %d seed %d: %016x vs %016x", i, c.Seed, res.TraceHash, res2.TraceHash))
 			}
+		}
+		if *fHashOut != "" {
+			hashLines = append(hashLines, fmt.Sprintf("%d %016x", i, res.TraceHash))
 		}
 		rep.Steps += int64(res.Stats.Steps)
 		rep.Contended += int64(res.Stats.Contended)
